@@ -257,3 +257,40 @@ pub proof fn lemma_hex_bytes_val(s: Seq<char>)
         assert(b as nat == hval(hi) * 16 + hval(lo));
     }
 }
+
+// ---------------- little-endian decimal digit vectors (U256 Display) ----------------
+/// value of a digit vector, least significant digit first
+pub open spec fn le_dec(d: Seq<u8>) -> nat decreases d.len() {
+    if d.len() == 0 { 0 } else { d[0] as nat + 10 * le_dec(d.skip(1)) }
+}
+pub open spec fn all_digits(d: Seq<u8>) -> bool { forall|i: int| 0 <= i < d.len() ==> #[trigger] d[i] < 10 }
+
+pub proof fn lemma_le_dec_push(d: Seq<u8>, x: u8)
+    ensures le_dec(d.push(x)) == le_dec(d) + x as nat * p10(d.len())
+    decreases d.len()
+{
+    if d.len() == 0 {
+        assert(d.push(x).skip(1) =~= Seq::<u8>::empty());
+        assert(p10(0) == 1);
+        assert(x as nat * 1 == x as nat);
+        assert(le_dec(d.push(x)) == x as nat + 10 * le_dec(d.push(x).skip(1)));
+    } else {
+        lemma_le_dec_push(d.skip(1), x);
+        assert(d.push(x).skip(1) =~= d.skip(1).push(x));
+        assert(d.push(x)[0] == d[0]);
+        let t = le_dec(d.skip(1)); let p = p10((d.len() - 1) as nat); let xn = x as nat;
+        assert(p10(d.len()) == 10 * p);
+        assert(10 * (t + xn * p) == 10 * t + xn * (10 * p)) by (nonlinear_arith);
+    }
+}
+
+/// prefix value: the first k bytes as a big-endian number
+pub open spec fn pre(b: Seq<u8>, k: int) -> nat { be_val(b.take(k)) }
+
+pub proof fn lemma_pre_step(b: Seq<u8>, k: int)
+    requires 0 <= k < b.len()
+    ensures pre(b, k + 1) == pre(b, k) * 256 + b[k] as nat
+{
+    assert(b.take(k + 1) =~= b.take(k).push(b[k]));
+    lemma_be_push(b.take(k), b[k]);
+}
